@@ -42,4 +42,36 @@ Proof.
   eapply in_sync_plan_empty; eauto. congruence.
 Qed.
 
+(* the same, with the second run started by a fresh doer on the tree the first one left *)
+Theorem sync_twice_from cfg S D ans bits ls ld ft D2 ans2 bits2 ld2 ft2 :
+  valid_listing S ls -> valid_listing (d_fs D) ld ->
+  wf_fs S -> wf_fs (d_fs D) -> src_times_set S -> links_roundtrip normalize dest_fl S -> d_open D = None ->
+  let r := sync_one cfg S D ans bits ls ld ft in
+  r_ok r = true -> r_skipped r = [] -> r_root_skipped r = false -> cf_dry cfg = false ->
+  no_through (d_events (r_dest r)) -> cf_fl cfg = dest_fl ->
+  b_same (cf_b cfg) = BSkip ->
+  d_fs D2 = d_fs (r_dest r) ->
+  valid_listing (d_fs D2) ld2 ->
+  let r2 := sync_one cfg S D2 ans2 bits2 ls ld2 ft2 in
+  r_ok r2 = true /\ r_dest r2 = D2 /\ filter mutating (r_dest_trace r2) = [] /\
+  (forall p, ~ In (CGetFileContent p) (r_src_trace r2)) /\ r_prompts r2 = [] /\ stats_nothing (r_stats r2) = true.
+Proof.
+  intros HvS HvD HwS HwD Hts Hlk Hop. cbv zeta. intros Hok Hsk Hrs Hdry Hnt Hfl Hsame Hfs HvD2.
+  pose proof (mirror_theorem now_z incl normalize chunker chunker_ok dest_fl cfg S D ans bits ls ld ft
+                HvS HvD HwS Hts Hlk Hop Hok Hsk Hrs Hdry Hnt Hfl) as HM.
+  set (r := sync_one cfg S D ans bits ls ld ft) in *.
+  assert (Hroot : fget S [] <> None).
+  { intro E. unfold r, Sync.sync_one in Hok. rewrite E in Hok. cbn in Hok. discriminate. }
+  destruct (fget S []) as [sn|] eqn:ErS; [|congruence].
+  assert (HmR : mirror_at now_z normalize (cf_diff cfg) dest_fl S (d_fs D) (d_fs (r_dest r)) []).
+  { apply (proj1 (HM [])). left. split; [left; reflexivity|congruence]. }
+  assert (HneD : fget (d_fs (r_dest r)) [] <> None) by (eapply mirror_at_some; eauto; congruence).
+  destruct (fget (d_fs (r_dest r)) []) as [dn|] eqn:ErD; [|congruence].
+  destruct (mirror_at_in_sync now_z normalize (cf_diff cfg) dest_fl S (d_fs D) (d_fs (r_dest r)) [] sn dn HmR ErS ErD) as [Hnd _].
+  eapply (empty_plan_noop now_z incl normalize chunker cfg S D2 ans2 bits2 ls ld2 ft2 sn dn); eauto.
+  - rewrite Hfs. exact ErD.
+  - rewrite Hsame. cbn [beh_eqb]. rewrite Hfs in *.
+    eapply in_sync_plan_empty; eauto. congruence.
+Qed.
+
 End IdemMain.
